@@ -23,6 +23,9 @@ type redCase struct {
 	Content map[string]string // key -> raw JSON value
 	Extra   map[string]string // extra top-level keys -> raw JSON
 	NoSK    bool
+	// Prev is the case the same worker checked immediately before: replays run it first, so that a violation that needs
+	// state left behind by the previous redaction (a reused scratch buffer) reproduces
+	Prev *redCase `json:",omitempty"`
 }
 
 func (c redCase) key() string {
@@ -180,6 +183,14 @@ func run(r *harness.Run) {
 		if err := json.Unmarshal(raw, &c); err != nil {
 			return err
 		}
+		// violations that need state left behind by an earlier redaction (a pooled or shared scratch buffer): redact the
+		// predecessor and an event carrying every optional top-level key first
+		if c.Prev != nil {
+			_ = check(r, *c.Prev)
+		}
+		dirty := redCase{Version: c.Version, Type: "m.room.member", Content: map[string]string{"membership": `"join"`, "junk": `1`, "users": `{}`},
+			Extra: map[string]string{"junk": `{"a":1}`, "origin": `"a.org"`, "membership": `"join"`, "prev_state": `[]`, "unsigned": `{"age":1}`, "age_ts": `5`, "redacts": `"$x:a.org"`, "outlier": `true`}}
+		_ = check(r, dirty)
 		return check(r, c)
 	})
 	if r.Replaying() {
@@ -222,17 +233,6 @@ func run(r *harness.Run) {
 			jobs = append(jobs, job{v, t})
 		}
 	}
-	report := func(c redCase, err error) {
-		if err != nil {
-			// class: version + type + sorted content keys
-			var ks []string
-			for k := range c.Content {
-				ks = append(ks, k)
-			}
-			sort.Strings(ks)
-			r.Violation(fmt.Sprintf("red:%s:%s:%v:%v", c.Version, c.Type, ks, len(c.Extra)), err.Error(), "red", c)
-		}
-	}
 	// the content tables depend only on (redaction generation, event format): the quick tier explores the
 	// content-subset product on one representative version per distinct pair, the extras product on all 16
 	rep := map[string]bool{}
@@ -247,6 +247,21 @@ func run(r *harness.Run) {
 	}
 	r.Parallel(len(jobs), func(i int) {
 		j := jobs[i]
+		var prev *redCase
+		report := func(c redCase, err error) {
+			p := prev
+			cc := c
+			prev = &cc
+			if err != nil {
+				c.Prev = p
+				var ks []string
+				for k := range c.Content {
+					ks = append(ks, k)
+				}
+				sort.Strings(ks)
+				r.Violation(fmt.Sprintf("red:%s:%s:%v:%v", c.Version, c.Type, ks, len(c.Extra)), err.Error(), "red", c)
+			}
+		}
 		for _, ss := range subsets {
 			if !rep[j.ver] {
 				break
